@@ -62,6 +62,8 @@ DOCS = [
     # options that make the reader evaluate more of the text: tree weights (fractions) and jplace edge numbers
     ("newick:weights", "newick", "[&W 1/2] (A,B); [&W 0.25] [&R] (A,(B,C));\n", ["TreeList", "Tree"], {"store_tree_weights": True}),
     ("newick:jplace", "newick", "((A:1{0},B:1{1}):1{2},C:2{3}){4};\n", ["TreeList"], {"is_parse_jplace_tokens": True}),
+    # the terminating semicolon made optional: a stray `)` or `,` at the top level must still end in an error, not in a loop
+    ("newick:semicolon-optional", "newick", "(A,(B,C))x;(D,E):1\n", ["TreeList", "yield"], {"terminating_semicolon_required": False}),
     ("nexus:taxa-trees", "nexus",
      "#NEXUS\nBEGIN TAXA;\n DIMENSIONS NTAX=3;\n TAXLABELS A B C;\nEND;\nBEGIN TREES;\n TREE t1 = [&R] ((A:1,B:2):1,C:3);\n TREE t2 = (A,B,C);\nEND;\n",
      ["DataSet", "TreeList", "Tree", "yield"], {}),
